@@ -399,6 +399,8 @@ def _run_program(prog, calls, hooks=None, timeout_s=None):
   for t in ctx.aborters:
     t.join(5)
   obs = project_record(out[0]) if out else dict(oc='NO-RECORD')
+  if out and ctx.hooks.get('record'):
+    obs['record_hook'] = ctx.hooks['record'](out[0])
   obs['ret'] = ret
   obs['calls'] = [c for c in ctx.calls if not c['n'].startswith('diag:')]
   obs['dcalls'] = [c for c in ctx.calls if c['n'].startswith('diag:')]
